@@ -245,8 +245,8 @@ theorem stepMon_harmless (V : Variant) (s s' : State) (b : Bool) (m m' : Mon)
 theorem sFlagged_cases (ph : SPh) : sFlagged ph = true → sStarting ph = true ∨ ph = .start := by
   cases ph <;> simp [sFlagged, sStarting]
 
-theorem lastMonAlive_mk (flag pending queue arrAlive reported crashes submitted hit sph cur todo old mon oldSubs sub armed faulted dropped) :
-    lastMonAlive ⟨flag, pending, queue, arrAlive, reported, crashes, submitted, hit, sph, cur, todo, old, mon, oldSubs, sub, armed, faulted, dropped⟩
+theorem lastMonAlive_mk (flag pending queue arrAlive reported crashes submitted hit sph cur todo old mon oldSubs sub armed faulted dropped pre gone) :
+    lastMonAlive ⟨flag, pending, queue, arrAlive, reported, crashes, submitted, hit, sph, cur, todo, old, mon, oldSubs, sub, armed, faulted, dropped, pre, gone⟩
       = (match mon with | some m => (m.ph != .unstarted && m.ph != .dead) | none => false) := by
   cases mon <;> simp [lastMonAlive, monAlive]
 
@@ -259,10 +259,10 @@ theorem invP_stepS (V : Variant) (hW : WF V) (s s' : State) (h : InvP V s) (hs :
   case ins =>
     simp only [stepS, hsph, hW.noGlue, Bool.false_eq_true, ↓reduceIte] at hs
     have hex : s.mons.any (exiting V) = false := by
-      split at hs <;> (simp only [Option.some.injEq] at hs; subst hs; simp at hh; simpa using hh.2)
+      (repeat' split at hs) <;> (simp only [Option.some.injEq] at hs; subst hs; simp at hh; simpa using hh.2)
     have hwin := exiting_false_of_any V s hex
     obtain ⟨a, b, c, d, e, f, g, i, j, k, l, m, n, o, na⟩ := h
-    split at hs <;> (simp only [Option.some.injEq] at hs; subst hs) <;>
+    (repeat' split at hs) <;> (simp only [Option.some.injEq] at hs; subst hs) <;>
       constructor <;> simp only [lph, liter, lcur, hsph, sFlagged, sCover, sGlue, sStarting] at * <;> (try assumption) <;> grind
   case call =>
     simp only [stepS, hsph, Option.some.injEq] at hs; subst hs
@@ -291,10 +291,10 @@ theorem invP_stepS (V : Variant) (hW : WF V) (s s' : State) (h : InvP V s) (hs :
     apply invP_finishS V s ⟨a, b, c, d, e, f, g, i, j, k, l, m, n, o, na⟩ <;>
       simp only [lph, liter, lcur, hsph, sFlagged, sCover, sGlue, sStarting] at * <;> grind
   case test =>
-    obtain ⟨flag, pending, queue, arrAlive, reported, crashes, submitted, hit, sph, cur, todo, old, mon, oldSubs, sub, armed, faulted, dropped⟩ := s
+    obtain ⟨flag, pending, queue, arrAlive, reported, crashes, submitted, hit, sph, cur, todo, old, mon, oldSubs, sub, armed, faulted, dropped, pre, gone⟩ := s
     simp only at hsph; subst hsph
     obtain ⟨c1, c2, c3, c4, c5⟩ := (sNops_class V.sSetPre).2.1
-    have hfin := invP_finishS V ⟨flag, pending, queue, arrAlive, reported, crashes, submitted, hit, .test, cur, todo, old, mon, oldSubs, sub, armed, faulted, dropped⟩ h
+    have hfin := invP_finishS V ⟨flag, pending, queue, arrAlive, reported, crashes, submitted, hit, .test, cur, todo, old, mon, oldSubs, sub, armed, faulted, dropped, pre, gone⟩ h
     obtain ⟨a, b, c, d, e, f, g, i, j, k, l, m, n, o, na⟩ := h
     simp only [stepS, hW.noGlue, Bool.false_eq_true, ↓reduceIte, lastMonAlive_mk] at hs
     cases mon with
@@ -319,7 +319,7 @@ theorem invP_stepS (V : Variant) (hW : WF V) (s s' : State) (h : InvP V s) (hs :
         | (apply hfin <;> grind [preExit])
         | (constructor <;> simp only [lph, liter, lcur, c1, c2, c3, c4, sFlagged, sCover, sGlue, sStarting] at * <;> (try assumption) <;> grind [preExit])
   case set =>
-    obtain ⟨flag, pending, queue, arrAlive, reported, crashes, submitted, hit, sph, cur, todo, old, mon, oldSubs, sub, armed, faulted, dropped⟩ := s
+    obtain ⟨flag, pending, queue, arrAlive, reported, crashes, submitted, hit, sph, cur, todo, old, mon, oldSubs, sub, armed, faulted, dropped, pre, gone⟩ := s
     simp only at hsph; subst hsph
     obtain ⟨c1, c2, c3, c4, c5⟩ := (sNops_class V.sNewPre).2.2
     obtain ⟨a, b, c, d, e, f, g, i, j, k, l, m, n, o, na⟩ := h
@@ -333,7 +333,7 @@ theorem invP_stepS (V : Variant) (hW : WF V) (s s' : State) (h : InvP V s) (hs :
       have hph := mph_cases mph
       constructor <;> simp only [lph, liter, lcur, c1, c2, c3, c4, sFlagged, sCover, sGlue, sStarting] at * <;> (try assumption) <;> grind [preExit]
   case new =>
-    obtain ⟨flag, pending, queue, arrAlive, reported, crashes, submitted, hit, sph, cur, todo, old, mon, oldSubs, sub, armed, faulted, dropped⟩ := s
+    obtain ⟨flag, pending, queue, arrAlive, reported, crashes, submitted, hit, sph, cur, todo, old, mon, oldSubs, sub, armed, faulted, dropped, pre, gone⟩ := s
     simp only at hsph; subst hsph
     obtain ⟨a, b, c, d, e, f, g, i, j, k, l, m, n, o, na⟩ := h
     simp only [stepS, Option.some.injEq] at hs
@@ -348,7 +348,7 @@ theorem invP_stepS (V : Variant) (hW : WF V) (s s' : State) (h : InvP V s) (hs :
       constructor <;> simp only [lph, liter, lcur, sFlagged, sCover, sGlue, sStarting, Option.toList] at * <;> (try assumption) <;>
         grind [preExit, iterPh, curPh]
   case start =>
-    obtain ⟨flag, pending, queue, arrAlive, reported, crashes, submitted, hit, sph, cur, todo, old, mon, oldSubs, sub, armed, faulted, dropped⟩ := s
+    obtain ⟨flag, pending, queue, arrAlive, reported, crashes, submitted, hit, sph, cur, todo, old, mon, oldSubs, sub, armed, faulted, dropped, pre, gone⟩ := s
     simp only at hsph; subst hsph
     obtain ⟨a, b, c, d, e, f, g, i, j, k, l, m, n, o, na⟩ := h
     simp only [stepS, hW.noGlue, Bool.false_eq_true, ↓reduceIte, Option.some.injEq] at hs
@@ -364,7 +364,7 @@ theorem invP_stepS (V : Variant) (hW : WF V) (s s' : State) (h : InvP V s) (hs :
       obtain ⟨h0, h1, h2, h3, h4, h5, h6, h7, h8⟩ := finishS_class
         ⟨flag, pending, queue, arrAlive, reported, crashes, submitted, hit, .start, cur, todo, old,
           Option.map (fun m => if m.ph = MPh.unstarted then { m with ph := mNops V.mPre .pre .loop } else m)
-            (some ⟨.unstarted, iter, mcur, idx⟩), oldSubs, sub, armed, faulted, dropped⟩
+            (some ⟨.unstarted, iter, mcur, idx⟩), oldSubs, sub, armed, faulted, dropped, pre, gone⟩
       constructor <;> simp only [lph, liter, lcur, h1, h2, h3, h4, h5, h6, h7, h8, Option.map, ↓reduceIte] at * <;> (try assumption)
       all_goals (rcases h0 with h0 | h0 <;> simp only [h0, sFlagged, sCover, sGlue, sStarting] at * <;> grind [preExit])
 
